@@ -22,8 +22,23 @@ Inductive tres :=
 (* one step of the body of an @async_generator() function *)
 Inductive step :=
 | GAwait (o : tres)       (* x = yield <future whose outcome is o>                   *)
-| GValue (v : val)        (* x = yield Value(v)                                      *)
+| GValue (v : val)        (* x = yield Value(v); v names the payload OBJECT, see below *)
 | GRaise (e : exn).       (* raise e   (the body dies)                               *)
+
+(* The payload of a Value.  `Value(obj)` may hold any Python object: None, an int, a tuple / list, or a
+   FUTURE the consumer is meant to receive as an object (an unstarted task it wants to batch with
+   others, a computed task, a ConstFuture / ErrorFuture, a lazy Future, a batch item).  generator.py
+   never looks at it: `Value.__init__` stores it (`self.value = value`, 84), send wraps it into a
+   fresh `ConstFuture(first_value.value)` (151 in today's /repo, 147 in the numbering above) and
+   _send_inner returns it as the task's result (`return value.value`, 166 / 162); nothing asks
+   `isinstance(payload, FutureBase)` and nothing ever yields the payload to the scheduler.  So in
+   the model the `v` of `GValue v` is a LABEL of that object: data is its own label, a future is
+   labelled by its identity (the correspondence uses VTuple [VInt (-1); VInt id]), never by its
+   result.  That the model cannot look inside is a theorem, not a convention:
+   GenProofs.run_relabel (relabelling the payloads by any f : val -> val commutes with every
+   consumer, for all bodies, states and op lists; what the body receives and what the generator
+   waits for do not change).  The payload is never awaited in the model because the only things
+   that reach `compute` / `inner_loop` as something to wait for are the `o` of `GAwait o`. *)
 
 (* _AsyncGenerator.last_task: None | a task not yet computed (with the future it will first
    wait for) | a computed task (with its result) *)
